@@ -11,6 +11,11 @@ func init() {
 	registry["C06"] = unit.CheckC06
 	registry["C19"] = func(run *harness.Run) int {
 		fs, ev := unit.CheckC19Unit(run)
+		rfs, rev, inc := rtPart(run, "stress", 24, 800, map[string]int{"C19 election actions judged": 300})
+		fs = append(fs, rfs...)
+		for k, v := range rev {
+			ev[k] = v
+		}
 		cov := map[string]interface{}{
 			"evaluations":         ev["formula_evaluations"].(int) + ev["timer_scripts"].(int),
 			"distinct_nontrivial": ev["formula_distinct_base_view"].(int) + ev["triggers_judged"].(int),
@@ -21,8 +26,8 @@ func init() {
 			cov[k] = v
 		}
 		run.WriteEvidence("exploration", cov, []string{"math/big as arithmetic reference", "the one-sided bound 'not before the timeout' uses the wall clock (a loaded machine can only make a trigger later)", "non-delivery is judged after timeout + 10 s"}, len(fs))
-		fmt.Printf("C19 %s: formula evals=%v scripts=%v triggers judged=%v\n", run.Tier, ev["formula_evaluations"], ev["timer_scripts"], ev["triggers_judged"])
-		return run.Conclude(fs, nil)
+		fmt.Printf("C19 %s: formula evals=%v scripts=%v triggers judged=%v; rt cases=%v election actions judged=%v\n", run.Tier, ev["formula_evaluations"], ev["timer_scripts"], ev["triggers_judged"], ev["rt_cases"], rev["rt_counters"].(map[string]int)["C19 election actions judged"])
+		return run.Conclude(fs, inc)
 	}
 }
 
@@ -37,6 +42,12 @@ func init() {
 func init() {
 	registry["C15"] = func(run *harness.Run) int {
 		fs, ev, inc := unit.CheckC15Registry(run)
+		rfs, rev, rinc := rtPart(run, "ctx", 64, 3000, map[string]int{"C15 contexts captured": 20, "C15 leave stimuli judged": 20})
+		fs = append(fs, rfs...)
+		inc = append(inc, rinc...)
+		for k, v := range rev {
+			ev[k] = v
+		}
 		cov := map[string]interface{}{
 			"evaluations":         ev["registry_sequences_exhaustive"].(int) + ev["concurrent_histories"].(int),
 			"distinct_nontrivial": ev["registry_sequences_with_issue_and_cancel"].(int),
